@@ -108,19 +108,19 @@ CInit == Init /\ phase = "build" /\ env = <<0, 0>> /\ pol = <<>> /\ cs = CS0
 
 Build == phase = "build" /\ AddZone /\ UNCHANGED cvars
 
-(* Not composed (found by this model with sign-encoded limits, reproduced on the real code at toy scale: zones   *)
-(* -8 [0,3) | 8 [3,11) | 4 [11,31), forces 2, 5 -> `Speed limit violated! speed=7, speed_limit=6`): a braking      *)
-(* curve that is abandoned at the start of the path after crossing a boundary between two zones of EQUAL          *)
-(* magnitude (possible only through the sign encoding). recalc then pushes that boundary's start point after      *)
-(* the abandoned curve point; calc_speeds, searching from the end of the table, stops at the boundary point and   *)
-(* never reaches the curve point behind it, so upstream of the boundary the train is given the full limit as      *)
-(* target. At realistic scale the same geometry (a curve reaching back to within a train length of the origin)    *)
-(* makes recalc return its descriptive error instead.                                                             *)
+(* The geometry of F-C03-4 (found by this model with sign-encoded limits, reproduced on the real code at toy      *)
+(* scale: zones -8 [0,3) | 8 [3,11) | 4 [11,31), forces 2, 5 -> `Speed limit violated! speed=7, speed_limit=6`;    *)
+(* repaired, Variant = "catchup"): a braking curve abandoned at the start of the path after crossing a boundary   *)
+(* between two zones of EQUAL magnitude (possible only through the sign encoding). Before the repair recalc       *)
+(* pushed that boundary's start point after the abandoned curve point; calc_speeds, searching from the end of     *)
+(* the table, stopped at the boundary point and never reached the curve point behind it, so upstream of the       *)
+(* boundary the train was given the full limit as target. Kept to name the class; no config excludes it           *)
+(* (MCController_hiddentarget.cfg checks the pre-repair variant and must fail).                                    *)
 HiddenTarget == \E k \in 1..(Len(tbl) - 1) :
                   /\ tbl[k][1] <= 0 /\ tbl[k+1][1] > 0
                   /\ \E i \in 2..Len(sp) : sp[i][1] = tbl[k+1][1] /\ V(sp, i) = V(sp, i-1)
 
-Start == /\ phase = "build" /\ Admitted /\ ~under /\ ~HiddenTarget
+Start == /\ phase = "build" /\ Admitted /\ ~under
          /\ phase' = "run"
          /\ env' \in Envs
          /\ IF Free THEN pol' = <<>> ELSE pol' \in Policies
